@@ -284,12 +284,13 @@ pub fn format_blame_metadata(
             _ => unreachable!("Unexpected `git blame` input"),
         };
         if let Some(field) = field {
-            // Unicode modifier should not be counted as character to allow a consistent padding
-            let unicode_modifier_width =
-                field.as_ref().chars().count() - UnicodeWidthStr::width(field.as_ref());
+            // Unicode modifier should not be counted as character to allow a consistent padding.
+            // Wide characters make the difference negative: add before subtracting.
+            let padded_width = (width + field.as_ref().chars().count())
+                .saturating_sub(UnicodeWidthStr::width(field.as_ref()));
             s.push_str(&format::pad(
                 &field,
-                width + unicode_modifier_width,
+                padded_width,
                 alignment_spec,
                 placeholder.precision,
             ))
